@@ -46,29 +46,42 @@ theorem PF_append : ∀ (a b : List FsEntry) (D : List RelPath), PF D a → PF (
     obtain ⟨h1, h2⟩ := ha
     exact ⟨h1, PF_append a b _ h2 hb⟩
 
-/-- a list-level route to `ListingOK`: good entries, distinct record names (also against what is already filed), parents first -/
+/-- a list-level route to `ListingOK`: good entries, distinct record names (also against what is already filed), no
+    path listed both as a directory and as something else, parents first -/
 theorem listing_of_list : ∀ (es : List FsEntry) (B : Bucket) (D : List RelPath),
     (∀ e ∈ es, GoodEntry e) → (es.map (fun e => recordName e.m)).Nodup →
-    (∀ e ∈ es, recordName e.m ∉ B.map (·.name)) → PF D es → ListingOK es B D
-  | [], _, _, _, _, _, _ => trivial
-  | e :: es, B, D, hg, hn, hd, hp => by
+    (∀ e ∈ es, recordName e.m ∉ B.map (·.name)) →
+    (∀ e ∈ es, ∀ e' ∈ es, recordName e'.m ≠ recordName (twinOf e.m)) →
+    (∀ e ∈ es, recordName (twinOf e.m) ∉ B.map (·.name)) → PF D es → ListingOK es B D
+  | [], _, _, _, _, _, _, _, _ => trivial
+  | e :: es, B, D, hg, hn, hd, ht1, ht2, hp => by
     obtain ⟨p1, p2⟩ := hp
     have hnd : recordName e.m ∉ es.map (fun e => recordName e.m) ∧ (es.map (fun e => recordName e.m)).Nodup := by
       rw [List.map_cons] at hn; exact List.nodup_cons.1 hn
-    refine ⟨hg e (by simp), ?_, fun p hp' => by simpa using p1 p hp', ?_⟩
+    refine ⟨hg e (by simp), ?_, ?_, fun p hp' => by simpa using p1 p hp', ?_⟩
     · cases hh : B.has e.m with
       | false => rfl
       | true => exact absurd ((has_iff B e.m).1 hh) (hd e (by simp))
-    · apply listing_of_list es _ _ (fun x hx => hg x (by simp [hx])) hnd.2 _ p2
-      intro x hx
-      simp only [List.map_append, List.map_cons, List.map_nil, List.mem_append, List.mem_singleton, not_or]
-      refine ⟨hd x (by simp [hx]), ?_⟩
-      intro e'
-      apply hnd.1
-      have : (recOf e).name = recordName e.m := rfl
-      rw [this] at e'
-      rw [← e']
-      exact List.mem_map.2 ⟨x, hx, rfl⟩
+    · cases hh : B.has (twinOf e.m) with
+      | false => rfl
+      | true => exact absurd ((has_iff B (twinOf e.m)).1 hh) (ht2 e (by simp))
+    · apply listing_of_list es _ _ (fun x hx => hg x (by simp [hx])) hnd.2 _
+        (fun x hx y hy => ht1 x (by simp [hx]) y (by simp [hy])) _ p2
+      · intro x hx
+        simp only [List.map_append, List.map_cons, List.map_nil, List.mem_append, List.mem_singleton, not_or]
+        refine ⟨hd x (by simp [hx]), ?_⟩
+        intro e'
+        apply hnd.1
+        have : (recOf e).name = recordName e.m := rfl
+        rw [this] at e'
+        rw [← e']
+        exact List.mem_map.2 ⟨x, hx, rfl⟩
+      · intro x hx
+        simp only [List.map_append, List.map_cons, List.map_nil, List.mem_append, List.mem_singleton, not_or]
+        refine ⟨ht2 x (by simp [hx]), ?_⟩
+        have : (recOf e).name = recordName e.m := rfl
+        rw [this]
+        exact fun h => ht1 x (by simp [hx]) e (by simp) h.symm
 
 end Rio
 
@@ -194,10 +207,11 @@ theorem root_records_good (m : Meta) (ch : Bytes) (kids : LForest)
     · subst hk; simp [toForest, flattenF] at hr
 
 /-- **For every real fileset** (entries named by normal components, only directories have children, siblings in key
-    order; attributes in the tar format's domain): the walk's pre-order listing packs to the specified tree hash, and
+    order, no path both a directory and something else — `hpaths`; attributes in the tar format's domain): the walk's pre-order listing packs to the specified tree hash, and
     the scan of the headers that pack wrote reports the same id twice. -/
 theorem scan_of_pack_fileset (H : Bytes → Bytes) (mu mg : Nat) (m : Meta) (ch : Bytes) (kids : LForest)
-    (hshape : (m.kind = .dir ∧ LWFF kids) ∨ (m.kind ≠ .dir ∧ kids = .nil)) (hattr : AttrsOK m ch) (hgood : LGoodF kids) :
+    (hshape : (m.kind = .dir ∧ LWFF kids) ∨ (m.kind ≠ .dir ∧ kids = .nil)) (hattr : AttrsOK m ch) (hgood : LGoodF kids)
+    (hpaths : ∀ r ∈ flatten (toRoot m ch kids), ∀ r' ∈ flatten (toRoot m ch kids), r'.name ≠ recordName (twinOf r.m)) :
     packId H .tar losslessPackF ((flatten (toRoot m ch kids)).map entOf) = .ok (specId H (toRoot m ch kids)) ∧
     unpackTar H nilOps mu mg losslessUnpack (hdrsOf ((flatten (toRoot m ch kids)).map entOf)) .eof () =
       .ok ((), specId H (toRoot m ch kids), specId H (toRoot m ch kids)) := by
@@ -224,6 +238,16 @@ theorem scan_of_pack_fileset (H : Bytes → Bytes) (mu mg : Nat) (m : Meta) (ch 
       conv => rhs; rw [← this]
       rfl
     rw [this]; exact hn
+  · simp
+  · intro e he e' he'
+    obtain ⟨r, hr, rfl⟩ := List.mem_map.1 he
+    obtain ⟨r', hr', rfl⟩ := List.mem_map.1 he'
+    have h2 := (hrec r' hr').2
+    have : recordName (entOf r').m = r'.name := by
+      conv => rhs; rw [← h2]
+      rfl
+    rw [this]
+    exact hpaths r hr r' hr'
   · simp
   · simp only [toRoot, flatten, List.map_cons]
     refine ⟨?_, ?_⟩
